@@ -190,7 +190,7 @@ def _impl_setch(inp):
     return show_msgs(rel_of(s))
 
 
-Op("set_channel", lambda r: (G.gen_rel_wf(r), r.choice([0, 1, 2, 5, 15])), _impl_setch,
+Op("set_channel", lambda r: (G.gen_rel_wf(r), r.choice([0, 1, 2, 5, 15, 16, 17, 40, 255])), _impl_setch,
    lambda inp: f"show_msgs (set_channel {lit_msgs(inp[0])} {z(inp[1])})")
 
 
@@ -353,6 +353,13 @@ def _gen_quantise(r):
     # trail: the sequence arrives through its relative view and ends with a rest (after pad / split / concatenate),
     # so that its absolute view carries the INTERNAL end marker
     trail = r.choice([1, 5, 6, 7, 12, 13, 50]) if r.random() < 0.3 else None
+    if r.random() < 0.12:      # a burst: three or four very short notes of one key inside one or two grid cells
+        c, p, t = r.choice([0, 1]), r.choice([60, 61]), r.choice([7, 23, 103, 5, 11])
+        for _ in range(r.choice([3, 3, 4])):
+            d = r.choice([1, 1, 2])
+            ms += [ON(c, p, 90, t), OFF(c, p, t + d)]
+            t += d + r.choice([0, 0, 1])
+        r.shuffle(ms)
     return ms, r.choice(G.STEP_POOLS), trail
 
 
@@ -701,6 +708,8 @@ def _gen_util(r):
     if k == "binvel":
         return k, (r.choice([1, 2, 3, 4, 5, 8, 16, 32, 127]), r.randint(0, 127))
     if k == "fmd":
+        if r.random() < 0.15:      # distances beyond 2^31 (ticks of a very long held note against small note values)
+            return k, (r.choice([3 * 10 ** 9, 5 * 10 ** 12, 0]), r.sample([24, 48, 96, 2 ** 31 + 5, 4 * 10 ** 9, 10 ** 13], r.randint(1, 4)))
         return k, (r.randint(0, 40), [r.randint(0, 40) for _ in range(r.randint(1, 6))])
     return k, (r.choice([1, 2, 4, 8, 3]), r.choice([1, 2, 4, 8, 16]))
 
@@ -927,6 +936,10 @@ def _impl_roundtrip_tok(inp):
 def _gen_rt(r):
     cfg = gen_cfg(r)
     tracks = gen_piece(r, cfg, valid=r.random() < 0.8)
+    if r.random() < 0.012 and cfg[11] == 24 and not cfg[3] and not cfg[4]:
+        # a general pause of 1200 short bars between two notes (one uninterrupted rest crossing every bar line)
+        tracks = [[TS(0, 2, 8), ON(0, cfg[1], 100), WT(0, 12), OFF(0, cfg[1]), WT(0, 12 + 24 * 1200), ON(0, cfg[1], 100), WT(0, 12), OFF(0, cfg[1])]] + \
+                 [[] for _ in tracks[1:]]
     if r.random() < 0.04:       # a wrong number of sequences for the configured number of tracks
         tracks = tracks[:-1] if r.random() < 0.5 else tracks + [tracks[0]]
     # tracks without a trailing rest can be handed over through the absolute view as well
@@ -1166,7 +1179,7 @@ def gen_history(r, nsteps=None, two_sided=False):
         elif k == "OPad":
             ops.append((k, i, r.choice([0, 12, 48, 96, 100, 200])))
         elif k == "OSetChannel":
-            ops.append((k, i, r.choice([0, 1, 2, 3])))
+            ops.append((k, i, r.choice([0, 1, 2, 3, 17])))
         elif k == "OOverwriteAbs":
             ops.append((k, i, G.gen_abs_wf(r, n=r.randint(0, 3), pitches=[60, 61], hi=40, extra=False)))
         elif k == "OOverwriteRel":
@@ -1909,6 +1922,8 @@ def _gen_comp(r):
     tracks, meta = gen_piece_tracks(r, aligned=True)
     rels = []
     for i, ms in enumerate(tracks):
+        if i != meta and r.random() < 0.3:         # a part written in its own key (transposing instrument)
+            ms = ms + [KS(i, r.choice(G.KEYS), 0)]
         if r.random() < 0.3:
             ms = ms + [PC(i, r.choice([1, 1, 2]), G.tick(r, 100))]
             if r.random() < 0.4:
